@@ -201,7 +201,7 @@ def get(o, m):
 def fiber_scenarios(rng, count, nfib=2, exhaustive_small=True):
     F = lambda b: b.v("Fiber")
     body_actions = ["print", "yield-v", "yield", "use-yield", "call-other", "call-other-v", "helper", "trycatch", "throw", "return",
-                    "capture", "yield-in-try", "has-finished-other"]
+                    "capture", "capture-w", "yield-in-try", "has-finished-other"]
     main_actions = ["call", "call-v", "call-2", "finished", "call-other-fiber"]
 
     def build(bodies, params, schedule, guard):
@@ -243,8 +243,15 @@ def fiber_scenarios(rng, count, nfib=2, exhaustive_small=True):
                 elif a == "return":
                     b.ret(lit(tag))
                 elif a == "capture":
+                    # the closure shares `loc` with the suspended fiber: writes on either side are seen by the other
                     b.expr(b.assign("loc", lit(tag)))
-                    b.expr(inv(F(b), "yield", b.lam([], lambda: b.v("loc"))))
+                    b.var("cl%d" % j, b.lam([], lambda: b.v("loc")))
+                    b.expr(inv(F(b), "yield", b.v("cl%d" % j)))
+                    b.expr(b.assign("loc", lit(tag + "'")))
+                    b.expr(inv(F(b), "yield", b.v("cl%d" % j)))
+                elif a == "capture-w":
+                    b.expr(inv(F(b), "yield", b.lam(["x"], lambda: b.assign("loc", b.v("x")))))
+                    b.print(tup(lit("loc after resume"), b.v("loc")))
                 elif a == "yield-in-try":
                     b.try_(); b.expr(inv(F(b), "yield", lit(tag))); b.throw(lit("after " + tag)); b.catch("e"); b.print(b.v("e")); b.finally_(); b.print(lit("fin " + tag)); b.end()
                 elif a == "has-finished-other":
@@ -266,6 +273,9 @@ def fiber_scenarios(rng, count, nfib=2, exhaustive_small=True):
                 e = inv(b.v(names[(who + 1) % len(names)]), "call")
             if guard:
                 b.try_(); b.var("res", e); b.print(tup(lit("main"), b.v("res")))
+                # if the fiber handed out a closure, use it (reads / writes a variable of the suspended fiber)
+                b.try_(); b.print(tup(lit("called"), call(b.v("res")))); b.catch("e1"); b.end()
+                b.try_(); b.print(tup(lit("called with"), call(b.v("res"), lit("w%d" % step)))); b.catch("e2"); b.end()
                 b.catch("err"); b.print(tup(lit("main error"), get(b.v("err"), "context"))); b.end()
             else:
                 b.print(tup(lit("main"), e))
@@ -276,7 +286,7 @@ def fiber_scenarios(rng, count, nfib=2, exhaustive_small=True):
     if exhaustive_small:
         # one fiber, every body of <= 2 actions, three fixed schedules
         import itertools
-        acts1 = ["print", "yield-v", "yield", "use-yield", "helper", "trycatch", "throw", "return", "capture", "yield-in-try"]
+        acts1 = ["print", "yield-v", "yield", "use-yield", "helper", "trycatch", "throw", "return", "capture", "capture-w", "yield-in-try"]
         for n in (0, 1, 2):
             for acts in itertools.product(acts1, repeat=n):
                 for np in (0, 1):
